@@ -69,7 +69,10 @@ def main():
             out[mid] = "proof-holds" if rc2 == 0 else "proof-breaks: " + " ".join(o.split())[:200]
         print(mid, out[mid], flush=True)
     shutil.rmtree(SCRATCH, ignore_errors=True)
-    json.dump(out, open(os.path.join(VERIF, "seeded", "source_tie.json"), "w"), indent=1, sort_keys=True)
+    dest = os.path.join(VERIF, "seeded", "source_tie.json")
+    if ids and os.path.exists(dest):          # a partial run refreshes its entries only
+        out = dict(json.load(open(dest)), **out)
+    json.dump(out, open(dest, "w"), indent=1, sort_keys=True)
     kinds = {}
     for v in out.values():
         kinds[v.split(":")[0]] = kinds.get(v.split(":")[0], 0) + 1
